@@ -6,7 +6,7 @@ From Hive.Base Require Import Prelude.
 From Hive.Model Require Import Types KernelBase SimOps States Step.
 From Hive.Gen Require Import Kernels.
 From Hive.Proofs Require Import SimFacts Reach VehFrame Atomic Trip Macro Count.
-Open Scope Z_scope.
+Local Open Scope Z_scope.
 
 (* what an activity holds *)
 Inductive Hold := H_none | H_plug (sid cid : id) | H_base_plug (bid cid : id) | H_queue (sid cid : id) | H_stall (bid : id).
